@@ -314,6 +314,8 @@ func snippet(src string, off int) string {
 var c20Prefixes = []string{"", "l1\nl2\n", "{# c1\nc2 #}\n", "{{ \"s1\ns2\" }}", "{{ \"s1\n#{a}\ns2\" }}\n", "é\n\n", "{% set q = 'x\ny' %}\n",
 	// multi-byte characters after the last newline of a multi-line token, the construct under test on the same line
 	"l1\n» é ", "{# c1\n€ #}", "{{ \"s1\né€\" }}", "{% set q = 'x\n»' %}",
+	// a byte order mark and other unusual bytes at the very start of the source
+	"\ufeff", "\ufeff\n", "\x00\xff ",
 	// line breaks between the tokens of an interpolated expression
 	"{{ \"s1#{ a\n }s2\" }}", "{{ \"#{ f(1,\n 2) }\" }}\n", "{% set q = \"x#{ a |\n up }»\" %}é ", "{{ \"#{\n[1,\n2]|join\n}\n#{ a\n~\na }\" }}"}
 
@@ -472,6 +474,41 @@ func c20Run(c core.Case) core.Result {
 			return core.Violation("error-position", fmt.Sprintf("%q: error %q reports %d:%d but the offending token %q is at %d:%d", src, err, line, col, c.Args[1], wl, wc))
 		}
 		return core.Okay(true, "err")
+	case "padded":
+		// after n simple prints (three token alignments, optionally on several lines): an unknown tag is reported at its
+		// name, a nested valid construct parses and its nodes report their true positions
+		n, lead, nl, what := c.N[0], []string{"", "x", "{{ a }}"}[c.N[1]], c.N[2] == 1, c.N[3]
+		unit := "{{a}}"
+		if nl {
+			unit = "{{a}}\n"
+		}
+		pad := lead + strings.Repeat(unit, n)
+		if what == 0 {
+			src := pad + "{% if a %}{% bogus %}{% endif %}"
+			off := len(pad) + len("{% if a %}{% ")
+			_, err, pan := tryParse(src)
+			if pan != "" {
+				return core.Violation("panic", fmt.Sprintf("parsing %d prints + an unknown tag panicked: %s", n, pan))
+			}
+			if err == nil {
+				return core.Violation("syntax-error-accepted", fmt.Sprintf("%q + {{a}} x %d + an unknown tag inside an if parses without error", lead, n))
+			}
+			wl, wc := lineCol(src, off)
+			line, col, ok := errPos(err)
+			if !ok || line != wl || col != wc {
+				return core.Violation("error-position", fmt.Sprintf("%q + %q x %d + \"{%% if a %%}{%% bogus %%}{%% endif %%}\": error %q, but the unknown tag's name is at %d:%d", lead, unit, n, err, wl, wc))
+			}
+			return core.Okay(true, "err")
+		}
+		src := pad + "{% for v in a %}{% if v %}{{ v }}{% else %}t{% endif %}{% endfor %}{{ b }}"
+		tree, err, pan := tryParse(src)
+		if pan != "" || err != nil {
+			return core.Violation("valid-rejected", fmt.Sprintf("%q + %q x %d + a for / if / else construct does not parse: %v %s", lead, unit, n, err, pan))
+		}
+		if msg := c20CheckNodes(src, tree.Root()); msg != "" {
+			return core.Violation("node-position", fmt.Sprintf("after %q + %q x %d: %s", lead, unit, n, msg))
+		}
+		return core.Okay(true, "ok")
 	case "name":
 		// Src = broken template, Args = [name, via]
 		name, via := c.Args[0], c.Args[1]
@@ -537,7 +574,7 @@ func c20Levels(tier string) []core.Level {
 	}
 	items := c20Items()
 	lv := []core.Level{
-		{Name: fmt.Sprintf("node positions: corpus x 15 multi-line prefixes x every newline placement with <= %d deviation(s)", maxDev), Gen: func(emit func(core.Case)) {
+		{Name: fmt.Sprintf("node positions: corpus x 18 prefixes x every newline placement with <= %d deviation(s)", maxDev), Gen: func(emit func(core.Case)) {
 			for ii, it := range items {
 				sites := c20NewlineSites(stokens(it.src))
 				for pi := range c20Prefixes {
@@ -637,6 +674,20 @@ func c20Levels(tier string) []core.Level {
 				}
 			}
 		}},
+		{Name: "size: an unknown tag inside an if, and a for / if / else construct, after n = 0..1500 simple prints (three token alignments, on one line and one per line)", Gen: func(emit func(core.Case)) {
+			for what := 0; what < 2; what++ {
+				for lead := 0; lead < 3; lead++ {
+					for nl := 0; nl < 2; nl++ {
+						for n := 0; n <= 1500; n++ {
+							if (what == 1 || nl == 1) && n%7 != 0 && n < 600 {
+								continue
+							}
+							emit(core.Case{Fam: "padded", N: []int{n, lead, nl, what}})
+						}
+					}
+				}
+			}
+		}},
 		{Name: "errors raised while loading a named template identify it: 6 broken templates x 13 names (incl. '%' sequences, spaces, non-ASCII, ' in ') x {direct, parse, include, extends, import, embed, use}", Gen: func(emit func(core.Case)) {
 			broken := []string{"x{% if %}", "{{ a", "{% bogus %}", "{{ a $ }}", "t{% for i in x %}", "{% include %}"}
 			for _, b := range broken {
@@ -655,7 +706,7 @@ func init() {
 	core.Register(&core.Check{
 		ID:       "C20",
 		Category: "exploration",
-		Rule: "(a) corpus (one template per tag kind / expression form, three hosts, plus multi-line templates) x 15 multi-line prefixes (text, comment, string, interpolated string, multi-line tag, multi-byte characters before and after the last newline of a multi-line token, line breaks between the tokens of an interpolated expression) x every placement of a newline at a token boundary inside delimiters (<= 1 deviation, thorough <= 2): every anchored node of the public AST must report the line:column an independent tokeniser computes for its anchor token; " +
+		Rule: "(a) corpus (one template per tag kind / expression form, three hosts, plus multi-line templates) x 18 prefixes (text, comment, string, interpolated string, multi-line tag, multi-byte characters before and after the last newline of a multi-line token, line breaks between the tokens of an interpolated expression) x every placement of a newline at a token boundary inside delimiters (<= 1 deviation, thorough <= 2): every anchored node of the public AST must report the line:column an independent tokeniser computes for its anchor token; " +
 			"(b) every truncation offset inside a delimiter pair or open block must be rejected and (d) the reported position must be a token start or end of input; (c) one syntax error of each listed kind injected at every token boundary must be rejected with the error located at the injected token; " +
 			"(e) errors from named templates loaded directly / via include, extends, import, embed, use must identify the template. distinct = distinct source; non-trivial = multi-line source or an error case",
 		Assumptions: []string{
